@@ -126,6 +126,13 @@ CHECKS = {
         note="The consumed part of each lot is taken from the computed fractions (C01/C02 judge those); balances are recomputed independently.",
         design="3/C15",
     ),
+    "C16": dict(
+        category="exploration",
+        technique="exhaustive option matrix (entry point x method x language x [accounting_methods] x input shape x date filter) on the real command-line entry points, each run in a fresh forked process",
+        text="Every supported configuration - rp2_us / jp / es / ie / generic x -m absent and every accepted method x -g absent (the country default, incl. rp2_jp's 'ja') and every language with templates x [accounting_methods] absent / one entry (also with a year other than 1970) / several entries - crossed with 12 input shapes (single / multi asset, sparse years, asset fully sold in thirds, income-only asset, transfers with / without fee and spot price across holders, all 14 types, crypto-fee purchase, mixed zones at New Year, an asset starting years after the others, a disposal over 30 lots, equal timestamps) and date filters from {before all, year start / mid-year / year end, the day after a year's last taxable event, the day before an asset's first acquisition, after all} (quick: no filter + 3 rotating filters per pair and all single-bound filters for plain rp2_us, 2 264 runs; thorough: all single-bound filters everywhere, all from <= to pairs for the us / jp defaults). Each run must exit 0, write every report of the country as a readable spreadsheet and nothing else, and log no traceback.",
+        note="Excluded as unsupported: rp2_jp with -f and -t together (refused by message), schedules that do not cover the input's first year.",
+        design="3/C16",
+    ),
 }
 
 NOT_YET = {
